@@ -183,6 +183,57 @@ def acknowledgement_model(ctx, repo, cname, fname):
                f"{fi.qual}: acknowledgements are addressed (parms, destination) = {addr}, expected the sender of the STATP {sender}", fi.loc)
 
 
+def send_path_model(ctx, repo, rule):
+    """The acknowledgement is fire-and-forget: whatever the handler hands to the awaitable protocol's queue_send must go
+    out, there is no queue behind it and nobody asks again.  GeckoAsyncUdpProtocol, built by its own constructor on a
+    recording transport and a model clock, is given three messages at the same instant (an update acknowledged right
+    after a ping, two updates back to back) and one a second later: each is transmitted once, in order, to its
+    destination."""
+    from ..absint import Interp, Native, Obj, PyRaise, Undecided
+    from .c16 import build_instance
+    P = "GeckoAsyncUdpProtocol"
+    qs = repo.method(P, "queue_send")
+    it = Interp(repo, max_depth=10)
+    clock = {"t": 500.0}
+    wire = []
+
+    def hook(it_, node, callee, args, kwargs):
+        nm = getattr(callee, "name", "")
+        if nm in ("time.monotonic", "time.time", "time.perf_counter"):
+            return clock["t"]
+        if nm == "time.sleep":
+            clock["t"] += float(args[0]) if args and isinstance(args[0], (int, float)) else 0.01
+            return None
+        return NotImplemented
+    it.call_hook = hook
+    try:
+        proto = build_instance(repo, it, P)
+        tr = Obj(None, {"sendto": Native(lambda a, k: wire.append((a[0], a[1] if len(a) > 1 else k.get("addr"))), "sendto"), "is_closing": Native(lambda a, k: False), "close": Native(lambda a, k: None)}, name="transport")
+        cm = repo.method(P, "connection_made", required=False)
+        if cm is not None:
+            it.call(cm, proto, [tr])
+        else:
+            proto.attrs["transport"] = tr
+        dest = ("10.0.0.7", 10022)
+        msgs = [Obj(None, {"send_bytes": b"MSG%d" % i, "last_destination": None}, name=f"message{i}") for i in range(4)]
+        for i, m in enumerate(msgs):
+            if i == 3:
+                clock["t"] += 1.0
+            it.steps = 0
+            it.call(qs, proto, [m, dest])
+        got = [(bytes(w[0]) if isinstance(w[0], (bytes, bytearray)) else w[0], w[1]) for w in wire]
+    except PyRaise as e:
+        got = f"raises {e.what}"
+    except Undecided as e:
+        raise AnalysisError(f"{qs.qual} on the model transport: {e}")
+    want = [(b"MSG%d" % i, dest) for i in range(4)]
+    ctx.ob(rule, f"{qs.qual}::transmits-every-message", got == want,
+           f"{qs.qual}: four messages handed over (three at the same instant, one a second later) leave as {got}, expected {want} - the acknowledgement of a partial update is sent once and never repeated: "
+           f"a message the send path drops (an update handled right after a ping or another update) is an update applied but never acknowledged", qs.loc,
+           sample={"rule": rule, "messages": 4, "transmitted": len(got) if isinstance(got, list) else str(got)})
+    ctx.count(f"{rule}:messages handed to the awaitable send path", 4)
+
+
 def apply_model(ctx, repo, qual, must_clear):
     """the apply callback by interpretation: a handler carrying three changes (two of them for the same position) is
     handed to the callback of a model connection whose structure records installs: every change is installed once, in
@@ -435,6 +486,8 @@ def check(ctx):
     ctx.rule("R11", "the update reaches its handler whole: a frame built by send_bytes and handed to the packet layer's handle() gives back exactly the payload, for any payload bytes - a STATP whose last data byte is a blank or a newline is not shortened on the way (C04's symbolic frame round trip borrowed)")
     from .c04 import framing as _framing5
     _framing5(ctx.borrowed("R11", "C04", only=("R4",), key_contains="frame-round-trip::payload"), repo)
+    ctx.rule("R12", "the acknowledgement leaves: the awaitable protocol's queue_send, built by its own constructor on a recording transport and a model clock, transmits every message it is handed - also several at the same instant - once, in order, to its destination (nothing queues or repeats an acknowledgement)")
+    send_path_model(ctx, repo, "R12")
     ctx.rule("R9", "message sequences end to end: on both stacks the long-lived partial-update handler, wired to the connection's own apply callback, is driven handle / handled per message with builder-made messages (two messages, an empty one in between, one position repeated within and across messages, a one-byte change): the structure receives every change once, in arrival order, and one acknowledgement is queued per message")
     message_sequence_model(ctx, repo, "R9")
     ctx.note("Not decided: interleaving of partial updates with refreshes; an observer raising during the sync apply loop skips the for-else clear (documented residual).")
